@@ -1,12 +1,12 @@
 import DoitModel.Proofs.C19Inv
 /-! # C19: the reporting invariant of the process runner with forwarded reports (`FSys`), per kind of step
 
-`FBase pend s`: as `Inv19`, but `execute_task` reports are part of the trace and arrive late: `pend n` of them are
+`FBase inp pend s`: as `Inv19`, but `execute_task` reports are part of the trace and arrive late: `pend n` of them are
 still on the queue. -/
 namespace DoitModel.Report
 open DoitModel.Run
 
-structure FBase (pend : Name → Nat) (s : Sys) : Prop where
+structure FBase (inp : RunInput) (pend : Name → Nat) (s : Sys) : Prop where
   fin : s.final = finalEv s.events
   fl : ∀ n, stOf s n = .fail → ∃ k, Ev.failure n k ∈ s.events
   ig : ∀ n, stOf s n = .ign → Ev.skipIgn n ∈ s.events
@@ -15,9 +15,10 @@ structure FBase (pend : Name → Nat) (s : Sys) : Prop where
   ex : ∀ n, cExec s n + pend n = cStart s n
   ord : repOrd true true (fun _ => false) s.events = true
   st : ∀ n, cStart s n ≥ 1 → stOf s n = .run ∨ cTerm s n ≥ 1
+  tl : truthLiteOrd inp s.events = true
 
-theorem FBase.same {pend : Name → Nat} {s s' : Sys} (h : FBase pend s) (e1 : s'.events = s.events)
-    (e2 : ∀ x, stOf s' x = stOf s x) (e3 : s'.final = s.final) : FBase pend s' := by
+theorem FBase.same {inp : RunInput} {pend : Name → Nat} {s s' : Sys} (h : FBase inp pend s) (e1 : s'.events = s.events)
+    (e2 : ∀ x, stOf s' x = stOf s x) (e3 : s'.final = s.final) : FBase inp pend s' := by
   constructor
   · rw [e3, e1]; exact h.fin
   · intro n hn; rw [e1]; exact h.fl n (by rw [← e2]; exact hn)
@@ -31,17 +32,18 @@ theorem FBase.same {pend : Name → Nat} {s s' : Sys} (h : FBase pend s) (e1 : s
     rcases h.st n this with a | a
     · left; rw [e2]; exact a
     · right; simpa [cTerm, e1] using a
+  · rw [e1]; exact h.tl
 
-theorem FBase.outer {pend : Name → Nat} {s s' : Sys} (h : FBase pend s) (o : SameOuter s s')
-    (e2 : ∀ x, stOf s' x = stOf s x) : FBase pend s' :=
+theorem FBase.outer {inp : RunInput} {pend : Name → Nat} {s s' : Sys} (h : FBase inp pend s) (o : SameOuter s s')
+    (e2 : ∀ x, stOf s' x = stOf s x) : FBase inp pend s' :=
   h.same o.1 e2 o.2.2.2.2.2.2.1
 
-theorem init_fbase (inp : RunInput) : FBase (fun _ => 0) (init inp) := by
-  constructor <;> simp [init, finalEv, stOf, cExec, cStart, cTerm, repOrd]
+theorem init_fbase (inp : RunInput) : FBase inp (fun _ => 0) (init inp) := by
+  constructor <;> simp [init, finalEv, stOf, cExec, cStart, cTerm, repOrd, truthLiteOrd]
 
-theorem fbase_select {inp : RunInput} {pend : Name → Nat} {s : Sys} {n : Name} {nd : Node} (h : FBase pend s)
+theorem fbase_select {inp : RunInput} {pend : Name → Nat} {s : Sys} {n : Name} {nd : Node} (h : FBase inp pend s)
     (h3 : Inv3 inp s) (haw : awaiting s) (hsu : s.susp = some (.node n)) (hn : s.nodes n = some nd)
-    (hne : selDecision inp n nd ≠ .assertFail) : FBase pend (applySel inp s n nd (selDecision inp n nd)) := by
+    (hne : selDecision inp n nd ≠ .assertFail) : FBase inp pend (applySel inp s n nd (selDecision inp n nd)) := by
   have hstat := selDecision_status hne
   have hstn : stOf s n = nd.status := by simp [stOf, hn]
   have hgo : cGo s n = 0 := h3.z haw n hsu
@@ -121,12 +123,24 @@ theorem fbase_select {inp : RunInput} {pend : Name → Nat} {s : Sys} {n : Name}
     · rcases h.st x (by omega) with a | a
       · left; rw [hst]; simp only [e, if_false]; exact a
       · right; rw [c.2.2.2]; omega
+  · rw [hev]
+    have T5 : truthLiteOrd inp (statusEv nd n ++ s.events) = true := by
+      unfold statusEv; split <;> simp [truthLiteOrd, truthLite, h.tl]
+    cases d with
+    | utd => obtain ⟨a, b⟩ := selDecision_utd hd; simp [selEvents, truthLiteOrd, truthLite, T5, a, b]
+    | depErr => have a := selDecision_depErr hd; simp [selEvents, truthLiteOrd, truthLite, T5, P3, a]
+    | argsErr => have a := selDecision_argsErr hd; simp [selEvents, truthLiteOrd, truthLite, T5, P3, a]
+    | skipIgn => simp [selEvents, truthLiteOrd, truthLite, T5]
+    | unmet => simp [selEvents, truthLiteOrd, truthLite, T5]
+    | runFirst => simp [selEvents, truthLiteOrd, truthLite, T5]
+    | go => simp [selEvents, truthLiteOrd, truthLite, T5]
+    | assertFail => exact absurd rfl hne
 
 /-- a worker process picks up task `n`: the action's start mark is written, the `execute_task` report is put on the
     queue (one more pending) -/
-theorem fbase_start {pend pend' : Name → Nat} {s s' : Sys} {n w : Nat} (h : FBase pend s) (hrun : stOf s n = .run)
+theorem fbase_start {inp : RunInput} {pend pend' : Name → Nat} {s s' : Sys} {n w : Nat} (h : FBase inp pend s) (hrun : stOf s n = .run)
     (hev : s'.events = Ev.start n w :: s.events) (hst : ∀ x, stOf s' x = stOf s x) (hf : s'.final = s.final)
-    (hp : ∀ x, pend' x = pend x + (if x = n then 1 else 0)) : FBase pend' s' := by
+    (hp : ∀ x, pend' x = pend x + (if x = n then 1 else 0)) : FBase inp pend' s' := by
   have hsub : ∀ e ∈ s.events, e ∈ s'.events := fun e he => by rw [hev]; exact List.mem_cons_of_mem _ he
   constructor
   · rw [hf, hev, h.fin]; simp [finalEv]
@@ -154,10 +168,11 @@ theorem fbase_start {pend pend' : Name → Nat} {s s' : Sys} {n w : Nat} (h : FB
       have h1 : cStart s' x = cStart s x := by simp [cStart, hev, List.countP_cons, Ev.isStartOf, hx']
       have h2 : cTerm s' x = cTerm s x := by simp [cTerm, hev, List.countP_cons, Ev.isTerminalOf]
       rw [h1] at hx; rw [hst, h2]; exact h.st x hx
+  · rw [hev]; simp [truthLiteOrd, truthLite, h.tl]
 
-theorem fbase_fin {pend : Name → Nat} {s s' : Sys} {n w : Nat} (h : FBase pend s) (hrun : stOf s n = .run)
+theorem fbase_fin {inp : RunInput} {pend : Name → Nat} {s s' : Sys} {n w : Nat} (h : FBase inp pend s) (hrun : stOf s n = .run)
     (hstart : cStart s n ≥ 1) (hev : s'.events = Ev.fin n w :: s.events)
-    (hst : ∀ x, stOf s' x = stOf s x) (hf : s'.final = s.final) : FBase pend s' := by
+    (hst : ∀ x, stOf s' x = stOf s x) (hf : s'.final = s.final) : FBase inp pend s' := by
   have hsub : ∀ e ∈ s.events, e ∈ s'.events := fun e he => by rw [hev]; exact List.mem_cons_of_mem _ he
   constructor
   · rw [hf, hev, h.fin]; simp [finalEv]
@@ -181,12 +196,13 @@ theorem fbase_fin {pend : Name → Nat} {s s' : Sys} {n w : Nat} (h : FBase pend
     have h1 : cStart s' x = cStart s x := by simp [cStart, hev, List.countP_cons, Ev.isStartOf]
     have h2 : cTerm s' x = cTerm s x := by simp [cTerm, hev, List.countP_cons, Ev.isTerminalOf]
     rw [h1] at hx; rw [hst, h2]; exact h.st x hx
+  · rw [hev]; simp [truthLiteOrd, truthLite, h.tl]
 
 /-- the main process takes the forwarded `execute_task n` from the head of the queue and calls the real reporter -/
-theorem fbase_deliver {inp : RunInput} {pend pend' : Name → Nat} {s s' : Sys} {n : Nat} (h : FBase pend s)
+theorem fbase_deliver {inp : RunInput} {pend pend' : Name → Nat} {s s' : Sys} {n : Nat} (h : FBase inp pend s)
     (h3 : Inv3 inp s) (hrun : stOf s n = .run) (hpn : pend n ≥ 1)
     (hev : s'.events = Ev.execute n :: s.events) (hst : ∀ x, stOf s' x = stOf s x) (hf : s'.final = s.final)
-    (hp : ∀ x, pend' x + (if x = n then 1 else 0) = pend x) : FBase pend' s' := by
+    (hp : ∀ x, pend' x + (if x = n then 1 else 0) = pend x) : FBase inp pend' s' := by
   have hsub : ∀ e ∈ s.events, e ∈ s'.events := fun e he => by rw [hev]; exact List.mem_cons_of_mem _ he
   have hterm : cTerm s n = 0 := h3.t n (by rw [hrun]; rfl)
   have hs1 : cStart s n ≤ 1 := by have := h3.j n; have := (h3.p0 n).1; omega
@@ -219,12 +235,13 @@ theorem fbase_deliver {inp : RunInput} {pend pend' : Name → Nat} {s s' : Sys} 
     have h1 : cStart s' x = cStart s x := by simp [cStart, hev, List.countP_cons, Ev.isStartOf]
     have h2 : cTerm s' x = cTerm s x := by simp [cTerm, hev, List.countP_cons, Ev.isTerminalOf]
     rw [h1] at hx; rw [hst, h2]; exact h.st x hx
+  · rw [hev]; simp [truthLiteOrd, truthLite, h.tl]
 
 /-- `process_task_result(n)` for a result taken from the head of the queue: the forwarded `execute_task n` was
     delivered before (`pend n = 0`: FIFO) -/
-theorem fbase_result {inp : RunInput} {pend : Name → Nat} {s : Sys} {n : Name} {nd : Node} (h : FBase pend s)
+theorem fbase_result {inp : RunInput} {pend : Name → Nat} {s : Sys} {n : Name} {nd : Node} (h : FBase inp pend s)
     (hn : s.nodes n = some nd) (hrun : nd.status = .run) (hterm : cTerm s n = 0) (hfin : cFin s n ≥ 1)
-    (hstart : cStart s n ≥ 1) (hpend : pend n = 0) : FBase pend (processResult inp s n nd) := by
+    (hstart : cStart s n ≥ 1) (hpend : pend n = 0) : FBase inp pend (processResult inp s n nd) := by
   have hstn : stOf s n = .run := by simp [stOf, hn, hrun]
   have hev := processResult_events inp s n nd
   have hst := stOf_processResult inp s n nd
@@ -279,8 +296,12 @@ theorem fbase_result {inp : RunInput} {pend : Name → Nat} {s : Sys} {n : Name}
       rcases h.st x (by omega) with a | a
       · left; rw [hst]; simp only [e, if_false]; exact a
       · right; rw [c.2.2.2]; omega
+  · rw [hev]
+    have P3' : s.events.any (Ev.isStartOf n) = true :=
+      any_true_of_countP (show s.events.countP (Ev.isStartOf n) ≥ 1 from hstart)
+    cases ho : inp.outcome n <;> simp [resEvents, truthLiteOrd, truthLite, h.tl, P3', ho]
 
-theorem fbase_finishRun {pend : Name → Nat} {s : Sys} (h : FBase pend s) : FBase pend (finishRun s) := by
+theorem fbase_finishRun {inp : RunInput} {pend : Name → Nat} {s : Sys} (h : FBase inp pend s) : FBase inp pend (finishRun s) := by
   have hev : (finishRun s).events = Ev.complete :: (s.tdown.map Ev.teardown ++ s.events) := rfl
   have hsub : ∀ e ∈ s.events, e ∈ (finishRun s).events :=
     fun e he => by rw [hev]; exact List.mem_cons_of_mem _ (List.mem_append_right _ he)
@@ -316,5 +337,7 @@ theorem fbase_finishRun {pend : Name → Nat} {s : Sys} (h : FBase pend s) : FBa
     rw [hcnt _ (by rfl) (by intro t; rfl)] at hx
     rw [hcnt _ (by rfl) (by intro t; rfl)]
     exact h.st x hx
+  · rw [hev]; simp only [truthLiteOrd, truthLite, Bool.true_and]
+    exact truthLiteOrd_teardown _ _ _ h.tl
 
 end DoitModel.Report
